@@ -39,6 +39,12 @@ type rcacheCase struct {
 var rcacheTables map[string][][2]any
 var rcacheMu sync.Mutex
 
+// the request alphabet of the model: after every replayed history each of these is sent once more (to a fresh pair of
+// routers that went through the same history) and compared with the cache-less twin.  The exported histories are one per
+// MODEL state; an implementation whose cache state differs from the model's after a history (an entry the model does not
+// have) shows the difference only in the NEXT request, which the model's graph reaches through another history.
+var rcacheAlphabet [][2]string
+
 func init() {
 	families["rcache"] = &family{replay: rcacheReplay}
 }
@@ -86,12 +92,14 @@ func rcServe(r *rux.Router, m, path string) (code int, body, allow string, pan a
 func rcacheReplay(s *Summary, raw json.RawMessage) {
 	if strings.HasPrefix(string(raw), `{"hdr"`) {
 		var h struct {
-			Tables map[string][][2]any `json:"tables"`
+			Tables   map[string][][2]any `json:"tables"`
+			Alphabet [][2]string         `json:"alphabet"`
 		}
 		if err := json.Unmarshal(raw, &h); err != nil {
 			fatal("bad rcache hdr: %v", err)
 		}
 		rcacheTables = h.Tables
+		rcacheAlphabet = h.Alphabet
 		s.Cases--
 		return
 	}
@@ -177,6 +185,24 @@ func rcacheReplay(s *Summary, raw json.RawMessage) {
 		if st.Hit && len(sets) > 0 && st.Code < 1000 && !contentReported {
 			bad("cache-fill", fmt.Sprintf("model: answered from the cache, but the router stored %v", sets))
 			contentReported = true
+		}
+	}
+	rux.VerifSetCacheTracer(nil)
+	for _, rq := range rcacheAlphabet {
+		ca, pl := rcBuild(c, true), rcBuild(c, false)
+		for _, st := range c.H {
+			rcServe(ca.r, st.M, tokStr(st.Path))
+			rcServe(pl.r, st.M, tokStr(st.Path))
+		}
+		c1, b1, a1, p1 := rcServe(ca.r, rq[0], rq[1])
+		c2, b2, a2, p2 := rcServe(pl.r, rq[0], rq[1])
+		s.Compared++
+		if c1 != c2 || b1 != b2 || a1 != a2 || (p1 == nil) != (p2 == nil) {
+			s.mismatch(map[string]any{"kind": "rcache", "aspect": "transparency", "table": c.Table, "cap": c.Cap, "step": len(c.H) + 1,
+				"method": rq[0], "path": rq[1], "what": fmt.Sprintf(
+					"table %s hmna=%v hfb=%v cap=%d, after the history of %d requests, one more request %s %s: caching router answered %d %q Allow=%q (panic %v), cache-less twin %d %q Allow=%q (panic %v)",
+					c.Table, c.Hmna, c.Hfb, c.Cap, len(c.H), rq[0], rq[1], c1, b1, a1, p1, c2, b2, a2, p2)}, c)
+			return
 		}
 	}
 }
